@@ -287,6 +287,102 @@ def corr_looprun(ck: core.Check, drv) -> None:
                                         "onnxruntime_accepted": ran, "zero_iteration_cases": zero, "mismatches": mism}
 
 
+def _raw_scan_session(in_axes, out_axes, in_dirs, out_dirs, slice_shapes):
+    """A raw ONNX model (onnx.helper, no spox) holding one Scan node: state f32[2] returned unchanged; scan
+    rows = every slice, then a constant f32[2,7]."""
+    import onnx
+    from onnx import TensorProto as T
+    from onnx import helper as h
+
+    k = len(slice_shapes)
+    b_in = [h.make_tensor_value_info("s", T.FLOAT, [2])] + [h.make_tensor_value_info(f"x{j}", T.FLOAT, list(sh)) for j, sh in enumerate(slice_shapes)]
+    b_nodes = [h.make_node("Identity", ["s"], ["s_out"])] + [h.make_node("Identity", [f"x{j}"], [f"y{j}"]) for j in range(k)]
+    b_nodes.append(h.make_node("Constant", [], ["z"], value=onnx.numpy_helper.from_array(np.zeros((2, 7), np.float32))))
+    b_out = [h.make_value_info(n, onnx.TypeProto()) for n in ["s_out"] + [f"y{j}" for j in range(k)] + ["z"]]
+    body = h.make_graph(b_nodes, "body", b_in, b_out)
+    node = h.make_node("Scan", ["s0"] + [f"X{j}" for j in range(k)], ["fin"] + [f"Y{j}" for j in range(k)] + ["Z"], body=body,
+                       num_scan_inputs=k, scan_input_axes=list(in_axes), scan_output_axes=list(out_axes),
+                       scan_input_directions=list(in_dirs), scan_output_directions=list(out_dirs))
+    g = h.make_graph([node], "g", [h.make_tensor_value_info("s0", T.FLOAT, [2])] + [h.make_value_info(f"X{j}", h.make_tensor_type_proto(T.FLOAT, None)) for j in range(k)],
+                     [h.make_value_info(n, onnx.TypeProto()) for n in ["fin"] + [f"Y{j}" for j in range(k)] + ["Z"]])
+    m = h.make_model(g, opset_imports=[h.make_operatorsetid("", 17)])
+    m.ir_version = 8
+    return P._session(m.SerializeToString())
+
+
+def corr_scanrun(ck: core.Check, drv) -> None:
+    """`scanRun` (the Scan semantics the Scan theorems quantify over: input / output axes incl. negative
+    ones, one or two scan inputs) vs. onnxruntime on RAW Scan nodes, both directions; and `scanOutTy` /
+    `scanSliceTySpox` vs. what the real `op.scan` of every opset module reports / prescribes."""
+    rng = ck.rng
+    cases = []
+    shapes = [list(p_) for r in (2, 3) for p_ in itertools.product([1, 2, 3], repeat=r)]
+    while len(cases) < ck.pick(240, 2400):
+        k = rng.choice([1, 1, 2])
+        xs, in_axes = [], []
+        n = rng.choice([1, 2, 3])
+        for _ in range(k):
+            sh = list(rng.choice(shapes))
+            a = rng.randrange(-len(sh), len(sh))
+            sh[a] = n
+            xs.append(sh)
+            in_axes.append(a)
+        out_axes = [rng.randrange(-len(sh), len(sh)) for sh in xs] + [rng.randrange(-3, 3)]
+        cases.append({"xs": xs, "inAxes": in_axes, "outAxes": out_axes,
+                      "inDirs": [rng.randrange(2) for _ in xs], "outDirs": [rng.randrange(2) for _ in range(k + 1)]})
+    model = drv.ask_many("C06", [{"k": "scanrun", "inAxes": c["inAxes"], "outAxes": c["outAxes"], "states": [{"e": "f32", "s": [2]}],
+                                  "xs": [{"e": "f32", "s": s_} for s_ in c["xs"]]} for c in cases])
+    mism = ran = 0
+    for c, mo in zip(cases, model):
+        try:
+            slice_shapes = [[d for i, d in enumerate(sh) if i != a % len(sh)] for sh, a in zip(c["xs"], c["inAxes"])]
+            sess = _raw_scan_session(c["inAxes"], c["outAxes"], c["inDirs"], c["outDirs"], slice_shapes)
+            feed = {"s0": np.zeros((2,), np.float32)}
+            feed.update({f"X{j}": np.zeros(sh, np.float32) for j, sh in enumerate(c["xs"])})
+            res = [L.val_of(r) for r in sess.run(None, feed)]
+        except Exception:  # noqa: BLE001 - the runtime refuses: the model may say anything
+            continue
+        ran += 1
+        ck.count(("scanrun", json.dumps(c)))
+        run = mo.get("run")
+        if run is None or run["final"] != res[:1] or run["outs"] != res[1:]:
+            mism += 1
+            if mism <= 3:
+                ck.broken("correspondence", "scanRun runtime-spec-vs-onnxruntime", f"case={json.dumps(c)} model={json.dumps(mo)} onnxruntime={json.dumps(res)}")
+    # type level: the real constructor (scan axis 0 — what it accepts for arbitrary dims), every output axis
+    tys = [[3, 4], ["N", 4], [None, 4], [3, "M", 2], [1, 2]]
+    tmism = tcases = 0
+    for mod in P.OPSET_MODULES:
+        op = P.opset_module(mod)
+        for sh in tys:
+            for oa in range(-len(sh), len(sh)):
+                seen: list = []
+
+                def body(s_, x_):
+                    seen.append(L.ty_to_json(x_.type))
+                    return [op.identity(s_), op.identity(x_)]
+
+                X = {"e": "f32", "s": sh}
+                try:
+                    with warnings.catch_warnings():
+                        warnings.simplefilter("ignore")
+                        outs = op.scan([L.mk_var({"e": "f32", "s": [2]}), L.mk_var(X)], body=body, num_scan_inputs=1, scan_output_axes=[oa])
+                    real = {"out": L.ty_to_json(outs[1].type), "arg": seen[0]}
+                except Exception as e:  # noqa: BLE001
+                    real = {"err": type(e).__name__}
+                mo = drv.ask("C06", {"k": "scanty", "inAxis": 0, "outAxis": oa, "X": X, "t": {"e": "f32", "s": sh[1:]}})
+                tcases += 1
+                ck.count(("scanty", mod, json.dumps(sh), oa))
+                if mo != real:
+                    tmism += 1
+                    if tmism <= 3:
+                        ck.broken("correspondence", f"scanOutTy / scanSliceTySpox model-vs-op.scan ({mod})", f"X={X} outAxis={oa} model={mo} real={real}")
+    ck.cov["scanrun_correspondence"] = {"cases": len(cases), "onnxruntime_accepted": ran, "mismatches": mism,
+                                        "type_cases": tcases, "type_mismatches": tmism}
+    if ran < len(cases) // 2:
+        ck.broken("correspondence", "scanRun not observable", f"onnxruntime accepted only {ran}/{len(cases)} raw Scan models")
+
+
 def corr_nontensor(ck: core.Check, drv) -> None:
     """Sequence / Optional typed inputs (outside `Ty`): each routine raises (class compared) or hands
     the type through; a passed-through non-tensor type is then tried under onnxruntime — the property
@@ -680,13 +776,15 @@ def oracle_unary_all(ck: core.Check) -> dict:
             stats["rejected"] += 1
             stats["not_observable"] += [f"{c['module']}:{n}" for n in c["ops"]]
             continue
+        if c.get("attrs"):
+            stats["attribute_settings"] = stats.get("attribute_settings", 0) + st.get("applied", 0)
         stats["runs"] += st["runs"]
         stats["runs_refused_by_runtime"] += st["refused"]
         stats["vars_checked"] += st["checked"]
         stats["operators_applied"] += st.get("applied", 0)
         stats["not_observable"] += [f"{c['module']}:{n}" for n in st.get("unloadable", [])]
         for n in c["ops"]:
-            ck.count(("unary-all", c["module"], n, c.get("symbolic", False)) if st["checked"] else None)
+            ck.count(("unary-all", c["module"], json.dumps(n), c.get("symbolic", False)) if st["checked"] else None)
         report(ck, st["fails"], case)
     if stats["operators_applied"] < 300:
         ck.broken("correspondence", "single-input operators not observable", f"only {stats['operators_applied']} constructors could be applied")
@@ -803,6 +901,7 @@ def run(ck: core.Check):
         _facet(ck, "Loop correspondence", corr_loop, ck, drv, tab["rows"] if tab else None)
         _facet(ck, "runtime-spec correspondence", corr_rt, ck, drv)
         _facet(ck, "loopRun correspondence", corr_looprun, ck, drv)
+        _facet(ck, "scanRun correspondence", corr_scanrun, ck, drv)
         ck.log("runtime-spec correspondence done")
         _facet(ck, "conforms/strip correspondence", corr_conf, ck, drv)
         _facet(ck, "non-tensor inputs correspondence", corr_nontensor, ck, drv)
